@@ -47,6 +47,10 @@ def configs(draw, tier):
             "cancel": list(cancel) if cancel else None,
             # the decorating instance is ALSO entered directly (async with) before the decorated calls
             "enter_first": draw(st.sampled_from([False, False, False, True])),
+            # keyword arguments of the decorated function under names a wrapper might use for itself
+            "extra": draw(st.sampled_from(["none", "none", "func", "many"])),
+            # the calls are made while the calling task is handling an unrelated exception
+            "in_handler": draw(st.booleans()),
             "choices": draw(st.lists(st.integers(0, 3), max_size=40))}
 
 
@@ -116,10 +120,13 @@ def run_config(case, impl, choices=None, default="rr"):
         async with deco:
             direct.append("inside")
 
+    extra = {"none": {}, "func": {"func": "F"},
+             "many": {"self": "S", "func": "F", "args": (1,), "kwds": {"k": 1}, "cm": 0, "inner": 0}}[case.get("extra", "none")]
+
     @deco
-    async def fn(task, call, outcome):
+    async def fn(task, call, outcome, **received):
         key = (task, call)
-        note("body-start")
+        note("body-start", tuple(sorted(received.items(), key=repr)))
         if inside:
             flags["overlap"] = True
         inside.add(key)
@@ -147,7 +154,13 @@ def run_config(case, impl, choices=None, default="rr"):
         for c, outcome in enumerate(case["tasks"][i]):
             current[name] = c
             try:
-                value = await fn(name, c, outcome)
+                if case.get("in_handler"):
+                    try:
+                        raise LookupError("unrelated, already being handled")
+                    except LookupError:
+                        value = await fn(name, c, outcome, **extra)
+                else:
+                    value = await fn(name, c, outcome, **extra)
             except Cancel as exc:
                 results[(name, c)] = ("cancelled", exc)
                 if len(inside) >= 1:
